@@ -37,7 +37,7 @@ HEAD = ("from Reduino.Actuators import Led, RGBLed, Servo, DCMotor\nfrom Reduino
 class M:
     def __init__(self, draw, clamp=False):
         self.draw, self.clamp = draw, clamp
-        self.floats = draw(st.integers(0, 2)) == 0   # this history passes float-typed run-time values where whole numbers are usual
+        self.floats = draw(st.booleans())  # this history passes float-typed run-time values where whole numbers are usual
         self.lines = []
         self.devs = {}
         self.reads = 0
@@ -55,7 +55,7 @@ class M:
         if self.clamp and self.draw(st.booleans()):
             self.lines.append(f"{v} = analog_read(\"A2\") * 3 - 1500")
             return f"__CL({v};{lo};{hi})__" if kind == "int" else f"__CL({v};-1.0;1.0)__"
-        elif kind == "int" and self.floats and self.draw(st.integers(0, 2)) == 0:
+        elif kind == "int" and self.floats and self.draw(st.integers(0, 3)) > 0:
             # a float-typed run-time value in [lo, hi] with a fractional part (multiples of 0.25): the host truncates / scales it as documented
             self.lines.append(f"{v} = {lo} + (analog_read(\"A2\") % {4 * span - 3}) * 0.25")
         elif kind == "int":
@@ -76,7 +76,7 @@ class M:
     def _ival(self, lo, hi, small=False):
         if self.clamp and self.draw(st.integers(0, 2)) == 0:
             return f"__CL({self.draw(st.sampled_from([-1, -300, hi + 1, hi + 45, hi + 500, 100000, -32768, lo - 1]))};{lo};{hi})__"
-        mode = self.draw(st.sampled_from(["lit", "lit", "bound", "rt"]))
+        mode = self.draw(st.sampled_from(["lit", "bound", "rt", "rt"] if self.floats else ["lit", "lit", "bound", "rt"]))
         if mode == "rt" and not small:
             return self.rt(lo, hi)
         if mode == "bound":
